@@ -765,7 +765,10 @@ func nttConjugateInvariantLazy(p1, p2 []uint64, N int, Q, MRedConstant uint64, r
 		p2[jx], p2[jy] = p1[jx]+twoQ-MRedLazy(p1[jy], F, Q, MRedConstant), p1[jy]+twoQ-MRedLazy(p1[jx], F, Q, MRedConstant)
 	}
 
-	p2[N>>1] = p1[N>>1] + twoQ - MRedLazy(p1[N>>1], F, Q, MRedConstant)
+	// For N = 1 the middle coefficient is the constant one, which is left as it is (p1 and p2 can be the same slice)
+	if N > 1 {
+		p2[N>>1] = p1[N>>1] + twoQ - MRedLazy(p1[N>>1], F, Q, MRedConstant)
+	}
 	p2[0] = p1[0]
 
 	// Continue the rest of the second to the n-1 butterflies on p2 with approximate reduction
